@@ -57,9 +57,16 @@ fn fwd(op: &Op, _ctx: &dyn Context, operands: &mut dyn CoordinateSet) -> usize {
     let B = (1_f64 + c.powi(4) * ellps.second_eccentricity_squared()).sqrt();
     let A = ellps.semimajor_axis() * B * kc * (1_f64 - es).sqrt() / (1.0 - es * s * s);
     let t0 = (FRAC_PI_4 - latc / 2.0).tan() / ((1.0 - e * s) / (1.0 + e * s)).powf(e / 2.0);
-    // (D is at least 1, but may round to slightly less for a centre on the equator)
-    let D = (B * (1.0 - es).sqrt() / (c * (1.0 - es * s * s).sqrt())).max(1.0);
-    let DD = if D < 1.0 { 0.0 } else { (D * D - 1.0).sqrt() };
+    let D = B * (1.0 - es).sqrt() / (c * (1.0 - es * s * s).sqrt());
+    // For a centre on or next to the equator D is 1 (but rounds to slightly less or slightly
+    // more), and taking the difference D² - 1 numerically loses all digits. So there we
+    // use its closed form, D² - 1 = tan²(latc)·(1 - es)/(1 - es·sin²(latc))
+    let (D, DD) = if (D - 1.0).abs() < 1e-6 {
+        let DD = (s / c).abs() * ((1.0 - es) / (1.0 - es * s * s)).sqrt();
+        (DD.hypot(1.0), DD)
+    } else {
+        (D, (D * D - 1.0).sqrt())
+    };
     let F = D + DD * latc.signum();
     let H = F * t0.powf(B);
     let G = (F - 1.0 / F) / 2.0;
@@ -178,9 +185,16 @@ fn inv(op: &Op, _ctx: &dyn Context, operands: &mut dyn CoordinateSet) -> usize {
     let B = (1_f64 + c.powi(4) * ellps.second_eccentricity_squared()).sqrt();
     let A = ellps.semimajor_axis() * B * kc * (1_f64 - es).sqrt() / (1.0 - es * s * s);
     let t0 = (FRAC_PI_4 - latc / 2.0).tan() / ((1.0 - e * s) / (1.0 + e * s)).powf(e / 2.0);
-    // (D is at least 1, but may round to slightly less for a centre on the equator)
-    let D = (B * (1.0 - es).sqrt() / (c * (1.0 - es * s * s).sqrt())).max(1.0);
-    let DD = if D < 1.0 { 0.0 } else { (D * D - 1.0).sqrt() };
+    let D = B * (1.0 - es).sqrt() / (c * (1.0 - es * s * s).sqrt());
+    // For a centre on or next to the equator D is 1 (but rounds to slightly less or slightly
+    // more), and taking the difference D² - 1 numerically loses all digits. So there we
+    // use its closed form, D² - 1 = tan²(latc)·(1 - es)/(1 - es·sin²(latc))
+    let (D, DD) = if (D - 1.0).abs() < 1e-6 {
+        let DD = (s / c).abs() * ((1.0 - es) / (1.0 - es * s * s)).sqrt();
+        (DD.hypot(1.0), DD)
+    } else {
+        (D, (D * D - 1.0).sqrt())
+    };
     let F = D + DD * latc.signum();
     let H = F * t0.powf(B);
     let G = (F - 1.0 / F) / 2.0;
